@@ -231,16 +231,18 @@ use crate::gen::Tier;
 
 pub fn default_runs(check: &str, tier: Tier) -> u64 {
     let (q, t) = match check {
-        "C01" => (1500, 40_000),
+        "C01" => (1500, 25_000),
         "C02" => (1200, 20_000),
         "C03" | "C04" | "C08" | "C14" => (3000, 150_000),
         "C06" => (1500, 30_000),
-        "C11" | "C12" => (3000, 60_000),
+        "C11" => (3000, 60_000),
+        "C12" => (3000, 40_000),
         "C05" => (4000, 200_000),
         "C18" => (1500, 40_000),
         "C10" => (400_000, 8_000_000),
         "C16" => (200_000, 4_000_000),
-        "C13" | "C15" => (1500, 30_000),
+        "C13" => (1500, 12_000),
+        "C15" => (1500, 30_000),
         "C07" => (6000, 120_000),
         _ => (1000, 20_000),
     };
